@@ -146,13 +146,18 @@ func c05Sniff(c *Ctx, tag string, data []byte) {
 	n := int64(len(data))
 	// the UUID sniffer stays an oracle: its verdict travels in the input and the model answers
 	// whether the necessary condition it assumes of that sniffer (uuid_possible) covers the verdict
-	isUUID := false
+	isUUID, isJWT := false, false
 	func() {
 		defer func() { _ = recover() }()
 		isUUID = file.IsUUID("", data, n)
 	}()
-	c.Emit("sniff:"+tag, SL{SB(data), Bool(isUUID)}, guard(func() Sx {
-		return SL{Bool(file.IsASN1("", data, n)), Bool(file.IsBase64ASN1("", data, n)), Bool(file.IsMixedPEM("", data, n)), I(1)}
+	// likewise the JWT sniffer (its row precedes the ASN.1 rows): necessary condition jwt_possible
+	func() {
+		defer func() { _ = recover() }()
+		isJWT = file.IsJWT("", data, n)
+	}()
+	c.Emit("sniff:"+tag, SL{SB(data), Bool(isUUID), Bool(isJWT)}, guard(func() Sx {
+		return SL{Bool(file.IsASN1("", data, n)), Bool(file.IsBase64ASN1("", data, n)), Bool(file.IsMixedPEM("", data, n)), I(1), I(1)}
 	}))
 }
 
@@ -1041,20 +1046,20 @@ func genC05(c *Ctx) {
 		two := append(append([]byte{}, one...), pemText("PUBLIC KEY", objs[1].der, false, 64, "", "")...)
 		pgp := []byte("-----BEGIN PGP PUBLIC KEY BLOCK-----\n\nAAAA\n-----END PGP PUBLIC KEY BLOCK-----\n")
 		texts := map[string][]byte{
-			"two-blocks":       two,
-			"pgp-then-block":   append(append([]byte{}, pgp...), one...),
-			"block-then-pgp":   append(append([]byte{}, one...), pgp...),
-			"unknown-label":    pemText("FOO BAR", o.der, false, 64, "", ""),
-			"wrong-label":      pemText("DSA PRIVATE KEY", o.der, false, 64, "", ""),
-			"ec-parameters":    pemText("EC PARAMETERS", must(asn1.Marshal(oid.Secp256r1)), false, 64, "", ""),
-			"params-and-key":   append(pemText("EC PARAMETERS", must(asn1.Marshal(oid.Secp256r1)), false, 64, "", ""), one...),
-			"headers":          bytes.Replace(one, []byte("-----\n"), []byte("-----\nProc-Type: 4,ENCRYPTED\nDEK-Info: AES-128-CBC,00\n\n"), 1),
-			"end-mismatch":     bytes.Replace(one, []byte("-----END "+l), []byte("-----END X"+l), 1),
-			"body-damaged":     bytes.Replace(one, []byte("-----\n"), []byte("-----\n!!"), 1),
-			"no-end":           one[:len(one)-20],
-			"begin-only":       []byte("-----BEGIN " + l + "-----\n"),
-			"spaces-in-body":   bytes.Replace(one, []byte("-----\n"), []byte("-----\n  \t"), 1),
-			"url-alphabet":     bytes.ReplaceAll(bytes.ReplaceAll(one, []byte("+"), []byte("-")), []byte("/"), []byte("_")),
+			"two-blocks":        two,
+			"pgp-then-block":    append(append([]byte{}, pgp...), one...),
+			"block-then-pgp":    append(append([]byte{}, one...), pgp...),
+			"unknown-label":     pemText("FOO BAR", o.der, false, 64, "", ""),
+			"wrong-label":       pemText("DSA PRIVATE KEY", o.der, false, 64, "", ""),
+			"ec-parameters":     pemText("EC PARAMETERS", must(asn1.Marshal(oid.Secp256r1)), false, 64, "", ""),
+			"params-and-key":    append(pemText("EC PARAMETERS", must(asn1.Marshal(oid.Secp256r1)), false, 64, "", ""), one...),
+			"headers":           bytes.Replace(one, []byte("-----\n"), []byte("-----\nProc-Type: 4,ENCRYPTED\nDEK-Info: AES-128-CBC,00\n\n"), 1),
+			"end-mismatch":      bytes.Replace(one, []byte("-----END "+l), []byte("-----END X"+l), 1),
+			"body-damaged":      bytes.Replace(one, []byte("-----\n"), []byte("-----\n!!"), 1),
+			"no-end":            one[:len(one)-20],
+			"begin-only":        []byte("-----BEGIN " + l + "-----\n"),
+			"spaces-in-body":    bytes.Replace(one, []byte("-----\n"), []byte("-----\n  \t"), 1),
+			"url-alphabet":      bytes.ReplaceAll(bytes.ReplaceAll(one, []byte("+"), []byte("-")), []byte("/"), []byte("_")),
 			"preamble-polyglot": append([]byte("Ar\n"), one...),
 		}
 		keys := make([]string, 0, len(texts))
@@ -1076,6 +1081,7 @@ func genC05(c *Ctx) {
 
 	// 4. the UUID sniffer against the necessary condition the routing lemmas assume of it
 	uuidForms(c)
+	jwtForms(c)
 
 	// 5. sniffers on text that is simultaneously one BER TLV (application class, primitive)
 	for n := 0; n < 130; n += 1 {
@@ -1139,6 +1145,45 @@ func uuidForms(c *Ctx) {
 			post += notSpaces[r.Intn(len(notSpaces))]
 		}
 		c05Sniff(c, "uuid-forms", []byte(pre+core+post))
+	}
+}
+
+// jwtForms: well-formed JWTs in the alphabets DecodeAnyBase64 accepts, and near misses
+func jwtForms(c *Ctx) {
+	r := c.R
+	n := 60
+	if c.Thorough() {
+		n = 1500
+	}
+	encs := []*base64.Encoding{base64.RawURLEncoding, base64.URLEncoding, base64.RawStdEncoding, base64.StdEncoding}
+	for i := 0; i < n; i++ {
+		hdr := fmt.Sprintf(`{"alg":"HS%d","typ":"JWT"}`, []int{256, 384, 512}[r.Intn(3)])
+		pay := fmt.Sprintf(`{"sub":"u%d","exp":%d}`, r.Intn(1000), 1700000000+r.Intn(100000))
+		sig := r.Bytes(r.Intn(40))
+		e := encs[r.Intn(len(encs))]
+		seg := []string{e.EncodeToString([]byte(hdr)), e.EncodeToString([]byte(pay)), e.EncodeToString(sig)}
+		switch r.Intn(8) {
+		case 0: // two segments
+			seg = seg[:2]
+		case 1: // four segments
+			seg = append(seg, "AAAA")
+		case 2: // payload is not an object
+			seg[1] = e.EncodeToString([]byte(`[1,2]`))
+		case 3: // a character outside every alphabet
+			seg[r.Intn(3)] += "*"
+		case 4: // one segment in another alphabet (each segment is decoded on its own)
+			seg[2] = encs[r.Intn(len(encs))].EncodeToString(sig)
+		case 5: // line breaks inside a segment (skipped by the decoders)
+			if len(seg[1]) > 4 {
+				seg[1] = seg[1][:4] + "\n" + seg[1][4:]
+			}
+		default:
+		}
+		s := strings.Join(seg, ".")
+		if r.Intn(5) == 0 {
+			s += "\n"
+		}
+		c05Sniff(c, "jwt-forms", []byte(s))
 	}
 }
 
